@@ -49,8 +49,13 @@ type NumOpts struct {
 // Num draws a number by class (DESIGN.md §2.3).
 func Num(o NumOpts) *rapid.Generator[spec.Num] {
 	return rapid.Custom(func(t *rapid.T) spec.Num {
-		cls := rapid.IntRange(0, 13).Draw(t, "numclass")
+		cls := rapid.IntRange(0, 14).Draw(t, "numclass")
 		switch cls {
+		case 14:
+			if rapid.Bool().Draw(t, "collide") {
+				return CollidingNum(t, "colliding")
+			}
+			return spec.NInt(int64(rapid.IntRange(-5, 12).Draw(t, "small")))
 		case 0, 1, 2:
 			return spec.NInt(int64(rapid.IntRange(-5, 12).Draw(t, "small")))
 		case 3:
@@ -158,8 +163,13 @@ var words = []string{"", "a", "b", "foo", "bar", "hello", "true", "false", "1", 
 // String draws a valid UTF-8 string over the hostile alphabet.
 func String() *rapid.Generator[string] {
 	return rapid.Custom(func(t *rapid.T) string {
-		switch rapid.IntRange(0, 5).Draw(t, "strclass") {
+		switch rapid.IntRange(0, 6).Draw(t, "strclass") {
 		case 0, 1:
+			return rapid.SampledFrom(words).Draw(t, "word")
+		case 6:
+			if rapid.Bool().Draw(t, "collide") {
+				return CollidingString(t, "colliding")
+			}
 			return rapid.SampledFrom(words).Draw(t, "word")
 		default:
 			n := rapid.IntRange(0, 6).Draw(t, "len")
